@@ -127,7 +127,57 @@ fn impact(name: &str, a: &[String]) -> Option<String> {
     })
 }
 
+/// `action.completed <state code>` / `action.cancelled <state code>` on the real gmsol_utils::action::ActionState.
+fn action(name: &str, a: &[String]) -> Option<String> {
+    use gmsol_utils::action::ActionState;
+    let code: u8 = a[0].parse().ok()?;
+    let Ok(st) = ActionState::try_from(code) else { return Some("NoSuchState".into()) };
+    let r = match name {
+        "completed" => st.completed(),
+        "cancelled" => st.cancelled(),
+        _ => return None,
+    };
+    Some(match r { Ok(s) => format!("Ok({})", u8::from(s)), Err(_) => "Err".into() })
+}
+
+/// `funding.next <duration> <long oi> <short oi> <stored factor (signed)> <exponent> <funding factor> <increase> <decrease>
+/// <max> <min> <threshold stable> <threshold decrease>` on the real UpdateFundingState::next_funding_factor_per_second,
+/// through the model crate's own `TestMarket<u128, 20>`.
+fn funding(name: &str, a: &[String]) -> Option<String> {
+    use gmsol_model::action::update_funding_state::UpdateFundingState;
+    use gmsol_model::params::fee::FundingFeeParams;
+    use gmsol_model::price::{Price, Prices};
+    use gmsol_model::test::{TestMarket, TestMarketConfig};
+    use gmsol_model::PerpMarketMut;
+    let n = |i: usize| -> u128 { a[i].parse::<u128>().unwrap() };
+    Some(match name {
+        "next" => {
+            let mut config = TestMarketConfig::<u128, 20>::default();
+            config.funding_fee_params = FundingFeeParams::builder()
+                .exponent(n(4)).funding_factor(n(5)).increase_factor_per_second(n(6)).decrease_factor_per_second(n(7))
+                .max_factor_per_second(n(8)).min_factor_per_second(n(9))
+                .threshold_for_stable_funding(n(10)).threshold_for_decrease_funding(n(11)).build();
+            let mut market = TestMarket::<u128, 20>::with_config(config);
+            *market.funding_factor_per_second_mut() = a[3].parse::<i128>().unwrap();
+            let p = Price { min: 1u128, max: 1u128 };
+            let prices = Prices { index_token_price: p.clone(), long_token_price: p.clone(), short_token_price: p };
+            let action = UpdateFundingState::try_new(&mut market, &prices).ok()?;
+            match action.next_funding_factor_per_second(a[0].parse::<u64>().unwrap(), &n(1), &n(2)) {
+                Ok((mag, longs_pay, next)) => format!("Ok({mag},{longs_pay},{next})"),
+                Err(_) => "Err".into(),
+            }
+        }
+        _ => return None,
+    })
+}
+
 pub fn dispatch(name: &str, a: &[String]) -> Option<String> {
+    if let Some(n) = name.strip_prefix("funding.") {
+        return funding(n, a);
+    }
+    if let Some(n) = name.strip_prefix("action.") {
+        return action(n, a);
+    }
     if let Some(n) = name.strip_prefix("impact.") {
         return impact(n, a);
     }
